@@ -31,9 +31,16 @@ import (
 const (
 	tCtx     aty = 100 + iota // the context statement of Group.render, as "raw previous item"
 	tOptCode                  // result of s.previous(g)
+	tKV                       // Dict.render's local struct {key, value string; k, v Code}: Str × Str × Code × Code
+	tSliceKV
 )
 
-var renderTargets = []string{"Statement.render", "Group.renderItems", "Group.render"}
+// fields of the local struct of Dict.render, in declaration order (checked against the source)
+var kvFields = []string{"key", "value", "k", "v"}
+var kvProj = map[string]string{"key": ".1", "value": ".2.1", "k": ".2.2.1", "v": ".2.2.2"}
+var kvType = map[string]aty{"key": tStr, "value": tStr, "k": tCode, "v": tCode}
+
+var renderTargets = []string{"Statement.render", "Group.renderItems", "Group.render", "Dict.render"}
 
 func isRenderTarget(key string) bool {
 	for _, k := range renderTargets {
@@ -147,7 +154,41 @@ func (a *algo) rblock(list []ast.Stmt, env aenv, tail string) string {
 			return tail
 		}
 		bail("%s statement", x.Tok)
+	case *ast.DeclStmt:
+		// type kv struct { key, value string; k, v Code }
+		if gd, ok := x.Decl.(*ast.GenDecl); ok && gd.Tok == token.TYPE && len(gd.Specs) == 1 {
+			ts := gd.Specs[0].(*ast.TypeSpec)
+			st, ok := ts.Type.(*ast.StructType)
+			if !ok {
+				bail("local type %s", ts.Name.Name)
+			}
+			var names []string
+			for _, fl := range st.Fields.List {
+				for _, n := range fl.Names {
+					names = append(names, n.Name+":"+squeeze(fl.Type))
+				}
+			}
+			if strings.Join(names, ",") != "key:string,value:string,k:Code,v:Code" {
+				bail("local struct %s has fields %v (expected key, value string; k, v Code)", ts.Name.Name, names)
+			}
+			a.kvName = ts.Name.Name
+			return a.rblock(rest, env, tail)
+		}
+		bail("declaration %s", nodeStr(x))
 	case *ast.ExprStmt:
+		// sort.Slice(keys, func(i, j int) bool { by key, then by value })
+		if c, ok := x.X.(*ast.CallExpr); ok && squeeze(c.Fun) == "sort.Slice" && len(c.Args) == 2 {
+			id, ok := c.Args[0].(*ast.Ident)
+			fl, ok2 := c.Args[1].(*ast.FuncLit)
+			if ok && ok2 && env[id.Name] == tSliceKV {
+				n := id.Name
+				want := "func(i,jint)bool{if" + n + "[i].key!=" + n + "[j].key{return" + n + "[i].key<" + n + "[j].key}return" + n + "[i].value<" + n + "[j].value}"
+				if squeeze(fl) != want {
+					bail("sort.Slice with a comparison other than (key, then value): %s", squeeze(fl))
+				}
+				return fmt.Sprintf("let %s : List (Str × Str × Code × Code) := (Go.sortKV %s);\n", lv(n), lv(n)) + a.rblock(rest, env, tail)
+			}
+		}
 		// f.register(p)
 		if c, ok := x.X.(*ast.CallExpr); ok && strings.Join(strings.Fields(nodeStr(c.Fun)), "") == "f.register" && len(c.Args) == 1 {
 			v, t := a.expr(c.Args[0], env)
@@ -192,6 +233,42 @@ func (a *algo) rblock(list []ast.Stmt, env aenv, tail string) string {
 		// x, ok := y.(T)
 		if line, e2, ok := a.typeAssert(x, env); ok {
 			return line + a.rblock(rest, e2, tail)
+		}
+		if len(x.Lhs) == 1 && len(x.Rhs) == 1 {
+			l, r := nodeStr(x.Lhs[0]), x.Rhs[0]
+			// buf := &bytes.Buffer{}
+			if x.Tok == token.DEFINE && (squeeze(r) == "&bytes.Buffer{}" || squeeze(r) == "bytes.Buffer{}") {
+				e2 := env.copy()
+				e2[l] = tWriter
+				return fmt.Sprintf("let %s : Str := [];\n", lv(l)) + a.rblock(rest, e2, tail)
+			}
+			// keys := []kv{}
+			if cl, ok := r.(*ast.CompositeLit); ok && x.Tok == token.DEFINE && a.kvName != "" && squeeze(cl.Type) == "[]"+a.kvName && len(cl.Elts) == 0 {
+				e2 := env.copy()
+				e2[l] = tSliceKV
+				return fmt.Sprintf("let %s : List (Str × Str × Code × Code) := [];\n", lv(l)) + a.rblock(rest, e2, tail)
+			}
+			// keys = append(keys, kv{key: …, value: …, k: …, v: …})
+			if c, ok := r.(*ast.CallExpr); ok && squeeze(c.Fun) == "append" && len(c.Args) == 2 && x.Tok == token.ASSIGN && env[l] == tSliceKV && nodeStr(c.Args[0]) == l {
+				cl, ok := c.Args[1].(*ast.CompositeLit)
+				if !ok || squeeze(cl.Type) != a.kvName || len(cl.Elts) != 4 {
+					bail("append to %s", l)
+				}
+				vals := map[string]string{}
+				for _, el := range cl.Elts {
+					kvx, ok := el.(*ast.KeyValueExpr)
+					if !ok {
+						bail("unkeyed struct literal")
+					}
+					v, t := a.expr(kvx.Value, env)
+					fn := nodeStr(kvx.Key)
+					if kvType[fn] != t {
+						bail("field %s of the struct literal", fn)
+					}
+					vals[fn] = v
+				}
+				return fmt.Sprintf("let %s : List (Str × Str × Code × Code) := %s ++ [(%s, %s, %s, %s)];\n", lv(l), lv(l), vals["key"], vals["value"], vals["k"], vals["v"]) + a.rblock(rest, env, tail)
+			}
 		}
 		// a, b := e1, e2 with independent right-hand sides
 		if x.Tok == token.DEFINE && len(x.Lhs) == len(x.Rhs) && len(x.Lhs) > 1 {
@@ -479,19 +556,45 @@ func (a *algo) rif(x *ast.IfStmt, rest []ast.Stmt, env aenv, tail string) string
 
 // for _, code := range <[]Code> { … }   with continue, guarded renders and error returns
 func (a *algo) rrange(x *ast.RangeStmt, rest []ast.Stmt, env aenv, tail string) string {
-	if x.Tok != token.DEFINE || nodeStr(x.Key) != "_" || x.Value == nil {
+	if x.Tok != token.DEFINE || x.Value == nil {
 		bail("range form %s", nodeStr(x))
 	}
 	coll, ct := a.expr(x.X, env)
-	if ct != tSliceCode {
-		bail("range over %s in a render function", nodeStr(x.X))
-	}
 	val := nodeStr(x.Value)
-	if _, dup := env[val]; dup {
-		bail("range variable %s shadows an outer variable", val)
+	key := nodeStr(x.Key)
+	for _, n := range []string{val, key} {
+		if _, dup := env[n]; dup && n != "_" {
+			bail("range variable %s shadows an outer variable", n)
+		}
 	}
 	e2 := env.copy()
-	e2[val] = tCode
+	bindPre := "" // bindings of the range variables from the fold's element
+	elem := lv(val)
+	switch ct {
+	case tSliceCode:
+		if key != "_" {
+			bail("index variable in %s", nodeStr(x))
+		}
+		e2[val] = tCode
+	case tSliceKV:
+		if key != "_" {
+			bail("index variable in %s", nodeStr(x))
+		}
+		e2[val] = tKV
+	case tMapCode:
+		// a Dict: pairs in the order the runtime iterates the map (a parameter, as in the model)
+		elem = "kv"
+		if key != "_" {
+			e2[key] = tCode
+			bindPre += "let " + lv(key) + " : Code := kv.1;\n"
+		}
+		if val != "_" {
+			e2[val] = tCode
+			bindPre += "let " + lv(val) + " : Code := kv.2;\n"
+		}
+	default:
+		bail("range over %s in a render function", nodeStr(x.X))
+	}
 	var outer []string
 	for _, v := range assigned(x.Body.List, e2) {
 		if _, ok := env[v]; ok {
@@ -550,7 +653,7 @@ func (a *algo) rrange(x *ast.RangeStmt, rest []ast.Stmt, env aenv, tail string) 
 		return b.String()
 	}
 	a.inLoopBody++
-	body := a.rblock(x.Body.List, e2, "(some "+tup("(some "+lv(val)+")")+")")
+	body := bindPre + a.rblock(x.Body.List, e2, "(some "+tup("(some "+lv(val)+")")+")")
 	a.inLoopBody--
 	a.prevVar = savePrev
 	init := tup("(none : Option Code)")
@@ -560,7 +663,7 @@ func (a *algo) rrange(x *ast.RangeStmt, rest []ast.Stmt, env aenv, tail string) 
 		lines := strings.SplitAfter(after, "\n")
 		after = strings.Join(lines[:len(lines)-2], "") // drop the last binding (prevItem) and the trailing ""
 	}
-	return fmt.Sprintf("match (Go.foldOpt (fun %s %s =>\n%s%s) %s %s) with\n| none => none\n| some %s => (\n%s", st, lv(val), unp(st), body, init, coll, t, after) +
+	return fmt.Sprintf("match (Go.foldOpt (fun %s %s =>\n%s%s) %s %s) with\n| none => none\n| some %s => (\n%s", st, elem, unp(st), body, init, coll, t, after) +
 		a.rblock(rest, env, tail) + ")"
 }
 
@@ -577,6 +680,9 @@ func (a *algo) translateRender(key string) {
 	case strings.HasPrefix(key, "Statement."):
 		env[rn] = tStmtRecv
 		params = append(params, fmt.Sprintf("(%s : List Code)", lv(rn)))
+	case strings.HasPrefix(key, "Dict."):
+		env[rn] = tDictRecv
+		params = append(params, fmt.Sprintf("(%s : List (Code × Code))", lv(rn)))
 	default:
 		bail("receiver of %s", key)
 	}
